@@ -273,5 +273,20 @@ def calls_on_path(evs: List[Ev], name: Optional[str] = None) -> List[ast.Call]:
     return out
 
 
+def cond_atoms(evs: List[Ev]) -> Dict[str, bool]:
+    """Truth of the normalised atomic conditions established along a path
+    (`a != b` is recorded as 'a == b': False; conjunctions that hold and
+    disjunctions that fail are split into their operands)."""
+    atoms: Dict[str, bool] = {}
+    for e in evs:
+        if e.kind == "cond":
+            _imply(e.node, e.val, atoms)
+            base, neg = _strip_not(e.node)
+            if isinstance(base, ast.BoolOp):
+                key, kneg = _atom_key(base)
+                atoms.setdefault(key, (e.val != neg) != kneg)
+    return atoms
+
+
 def path_conditions(evs: List[Ev]) -> List[Tuple[str, bool]]:
     return [(" ".join(unparse(e.node).split()), e.val) for e in evs if e.kind == "cond"]
